@@ -122,8 +122,9 @@ let answer line =
     let eff = compute_effective_stats stats sc sb in
     let chk = check ck mv stats None in
     let pfc = process_for_check ck mv stats in
-    Printf.sprintf "VAL=%s\tSP=%s\tXC=%s\tSK=%s%s\tEFF=%s\tCHK=%s\tPFC=%s\tEXP=%s\tXEXP=%s"
-      (b01 (validate_content cfg)) (b01 sp) (b01 (any_true ev)) (b01 sc) (b01 sb) (fmt_stats eff) (fmt_result chk) (fmt_result pfc)
+    let valo = if cli = "~" then validate_content cfg else validate_content (apply_cli_overrides cfg (parse_cli cli)) in
+    Printf.sprintf "VAL=%s\tVALO=%s\tSP=%s\tXC=%s\tSK=%s%s\tEFF=%s\tCHK=%s\tPFC=%s\tEXP=%s\tXEXP=%s"
+      (b01 (validate_content cfg)) (b01 valo) (b01 sp) (b01 (any_true ev)) (b01 sc) (b01 sb) (fmt_stats eff) (fmt_result chk) (fmt_result pfc)
       (fmt_expl (explain ck ev mv)) (fmt_expl (explain xck ev mv))
   | _ -> "BADLINE"
 
